@@ -53,6 +53,10 @@ ArgLists ==
     [] Fn \in {"setunion", "setintersection", "setsymmetricdifference"} ->
           UNION {SeqsUpTo(TakeN(Vals(t, W), 6), 3) \ {<<>>} : t \in ST}
     [] Fn = "setsubtract" -> UNION {{<<x, y>> : x \in TakeN(Vals(t, W), 8), y \in TakeN(Vals(t, W), 8)} : t \in ST}
+    [] Fn = "flatten" -> {<<v>> : v \in VOf({TList(TList(TNum)), TList(TSet(TStr)), TSet(TList(TNum)), TTup(<<TList(TStr), TNum>>), TSet(TTup(<<TNum, TStr>>)), TList(TNum), TTup(<<>>),
+                                                 TList(TObj([a |-> TNum])), TMap(TNum), TTup(<<TNum, TStr>>)})}
+                         \cup {<<SeqV(TTup(<<TSet(TStr), TList(TList(TNum)), TNum>>), <<SeqV(TSet(TStr), <<StrV(<<"a">>)>>), SeqV(TList(TList(TNum)), <<SeqV(TList(TNum), <<NumV(4), NumV(8)>>), SeqV(TList(TNum), <<>>)>>), NumV(0)>>)>>,
+                               <<SeqV(TList(TSet(TList(TNum))), <<SeqV(TSet(TList(TNum)), <<SeqV(TList(TNum), <<NumV(4)>>)>>)>>)>>}
     [] Fn = "sethaselement" -> UNION {{<<s, x>> : s \in Vals(t, W), x \in Members_(t.e, W)} : t \in ST}
     [] OTHER -> {}
 WeakOfArgs(a) == UNION {{[a EXCEPT ![i] = w] : w \in (IF Thorough THEN Weak1(a[i], FALSE) ELSE TakeN(Weak1(a[i], FALSE), 5) \cup TakeN(Weak1(a[i], TRUE), 4))} : i \in 1..Len(a)}
